@@ -2,7 +2,8 @@
  * Every body (and the copy constructor's initialiser list) is #included verbatim from a slice cut out of the current tree;
  * class DataKey is the real class text.  DataSetHost replicates the six data members of DataSet (conformance-checked).
  * C view as in unit dataset: item[i] = 64-bit cell {low: theitem[i].data, high: theitem[i].info}; key[g] = {low: info, high: idx}.
- * spx_alloc / spx_realloc / spx_free: the real ones minus the out-of-memory exception; realloc by ISO C contract. */
+ * spx_alloc / spx_realloc / spx_free: the real ones minus the out-of-memory exception; memcpy = cell-wise copy loop, realloc =
+ * malloc + copy + free. */
 #include "verif.h"
 
 extern "C" void verif_throw(void) { __CPROVER_assert(0, "no exception (allocation succeeds)"); }
@@ -16,23 +17,44 @@ static SPxMemoryException verif_exc;
 
 typedef long ptrdiff_t;
 extern "C" {
-void* verif_malloc(size_t n);                  /* contract in contract.c */
+void* malloc(size_t);
+/* malloc is CBMC's library model.  Functional instances allocate a constant-size block >= the requested size (small SAT
+ * encoding); the `_mem` twins (EXACT_ALLOC) allocate exactly the requested size. */
+#ifdef EXACT_ALLOC
+#define VERIF_NEWSIZE(n) (n)
+#else
+#define VERIF_NEWSIZE(n) ((2 * CAP + 1) * sizeof(long long))
+#endif
 void free(void*);
-void* verif_realloc(void* p, size_t n);       /* ISO C contract in contract.c */
-#ifdef MEMCPY_LOOP
+#if defined(INST_reMax) || defined(INST_assign)
+/* realloc (successful): a fresh block (malloc), the common prefix copied cell by cell, the old block released
+ * (= CBMC's library model of realloc, with an explicit 8-byte-cell copy loop instead of __CPROVER_array_copy) */
+void* verif_realloc(void* p, size_t n)
+{
+   __CPROVER_assert(n % sizeof(long long) == 0 && 0 < n, "realloc model: whole 8-byte cells");
+   long long* q = (long long*)malloc(VERIF_NEWSIZE(n));
+   __CPROVER_assume(q != 0);
+   size_t old = __CPROVER_OBJECT_SIZE(p);
+   size_t m = (old < n ? old : n) / sizeof(long long);
+   for(size_t i = 0; i < m; ++i)
+      q[i] = ((const long long*)p)[i];
+   free(p);
+   return q;
+}
+#endif
+/* memcpy for whole 8-byte cells between different objects (both checked): cell-wise copy loop, unwound completely.
+ * (CBMC's library model of a copy of symbolic length exhausts memory; a contract creates too many objects.) */
 void* verif_memcpy(void* dst, const void* src, size_t n)
 {
    __CPROVER_assert(n % sizeof(long long) == 0, "memcpy model: whole 8-byte cells");
+   __CPROVER_assert(n == 0 || !__CPROVER_same_object(dst, src), "memcpy: source and destination do not overlap");
    for(size_t i = 0; i < n / sizeof(long long); ++i)
       ((long long*)dst)[i] = ((const long long*)src)[i];
    return dst;
 }
-#else
-void* verif_memcpy(void* dst, const void* src, size_t n);   /* ISO C contract in contract.c */
-#endif
 }
 #define realloc(p, n) verif_realloc((p), (n))
-#define malloc(n) verif_malloc((n))
+
 #define memcpy(d, s, n) verif_memcpy((d), (s), (n))
 
 /* reMax returns `reinterpret_cast<char*>(theitem) - reinterpret_cast<char*>(old_theitem)`: the distance between the new and the
@@ -47,7 +69,7 @@ template <class TO> inline VerifAddr verif_addr_cast(const void* p) { VerifAddr 
 template <class PT> inline void spx_alloc(PT& p, int n = 1)
 {
    if(n == 0) n = 1;
-   p = (PT)(malloc(sizeof(*p) * (unsigned int) n));
+   p = (PT)(malloc(VERIF_NEWSIZE(sizeof(*p) * (unsigned int) n)));
    __CPROVER_assume(p != 0);          /* the real one throws SPxMemoryException */
 }
 template <class PT> inline void spx_realloc(PT& p, int n)
